@@ -141,7 +141,14 @@ func stripConv(v ssa.Value) ssa.Value {
 		case *ssa.ChangeType:
 			v = x.X
 		case *ssa.Convert:
-			v = x.X
+			// only numeric-to-numeric conversions are transparent; string <-> []rune/[]byte change the dimension
+			bf, okf := x.X.Type().Underlying().(*types.Basic)
+			bt, okt := x.Type().Underlying().(*types.Basic)
+			if okf && okt && bf.Info()&types.IsNumeric != 0 && bt.Info()&types.IsNumeric != 0 {
+				v = x.X
+				continue
+			}
+			return v
 		case *ssa.MakeInterface:
 			v = x.X
 		case *ssa.ChangeInterface:
